@@ -161,7 +161,6 @@ static bool parent_absorbed(Outcome o)
 static void part_secondary(vf::Run& R)
 {
     bool const thorough = R.thorough();
-    int const bound = 2;
     std::vector<CapCfg> cfgs;
     for (unsigned s : {1u, 2u, 3u})
         for (int cap = 0; cap <= 7; ++cap)
@@ -217,6 +216,9 @@ static void part_secondary(vf::Run& R)
             std::string root = cc.id + ":" + rt.id;
             if (R.replay() && R.replay_case().compare(0, root.size() + 1, root + "|") != 0)
                 continue;
+            // thorough: a third deviation for the several-primaries roots at the small capacities
+            // (three allocating tracks in one step / fail, succeed, fail sequences)
+            int const bound = (thorough && rt.prims.size() > 1 && cc.cap <= 3) ? 3 : 2;
             if (cc.at_rest_only && rt.prims[0].kind != 2)
                 continue;
             LoopConfig cfg;
@@ -602,8 +604,7 @@ static void part_initializer(vf::Run& R)
                     continue;
                 if (R.expired())
                     return;
-                // deviation bound 3 (thorough) only for the default track order
-                int const bound = (thorough && order == TrackOrder::none) ? 3 : 2;
+                int const bound = thorough ? 3 : 2;
                 std::string root = order == TrackOrder::none
                                        ? fmt("init.s%u.q%u:%s", slots, cap, pc.id.c_str())
                                        : fmt("init.s%u.q%u.o%d:%s", slots, cap, int(order),
